@@ -579,6 +579,11 @@ def rule_finite(ctx):
 
 
 def run(ctx):
+    from ..report import SubCtx
+    from . import c09
+    sub = SubCtx(ctx, 'C08.queue', 'every clock wakes its tasks in queue order: the priority-queue contract of the task queue, as decided for C09')
+    c09.rule_inv(sub)
+    c09.rule_key(sub)
     rule_finite(ctx)
     rule_guard(ctx)
     rule_wait(ctx)
@@ -592,6 +597,9 @@ def run(ctx):
 
 
 MUTANTS = [
+    dict(rule='C08.queue', name='queue re-insertion updates the entry in place (seeds C08-e, C05-f)', file='sc3/base/_taskq.py',
+         old="        if task in self._entry_finder:\n            self.remove(task)\n        count = next(self._counter)\n        entry = [prio, count, task]\n        self._entry_finder[task] = entry\n        heapq.heappush(self._queue, entry)",
+         new="        count = next(self._counter)\n        if task in self._entry_finder:\n            entry = self._entry_finder[task]\n            entry[0] = prio\n            entry[1] = count\n            return\n        entry = [prio, count, task]\n        self._entry_finder[task] = entry\n        heapq.heappush(self._queue, entry)"),
     dict(rule='C08.resched', name='SystemClock re-schedules an infinite delta (fix reverted)', file='sc3/base/clock.py',
          old="                        and not isinstance(delta, bool)\\\n                        and delta != float('inf'):  # As sched.\n                            time = sched_time + delta",
          new="                        and not isinstance(delta, bool):\n                            time = sched_time + delta"),
